@@ -55,12 +55,19 @@ CLAIMED = {
         technique="contract-based deductive verification: symbolic execution with storage/alias tracking, frame obligations discharged by z3",
         design="3/C11",
     ),
+    "C17": dict(
+        category="exploration",
+        text="BOUNDED STAND-IN (not a proof): toposort_edges is run for every rooted labelled tree on 2..4 nodes (quick; 2..5 thorough) with every ordering of its edge list plus seeded samples of larger trees with arbitrary node labels, through the symbolic interpreter on the real source (networkx contract model) and through the real function with the real networkx; each result must be a permutation of the edge indices listing an edge only after the edge into its source.",
+        note="the function's own code (comprehensions and list.index over a symbolic-length list, delegating to networkx) is outside the verifier's subset, so contracts cannot carry this property unboundedly; the finite quantifier of the property (trees up to 7 nodes) is covered exhaustively only up to the stated size.",
+        technique="bounded exhaustive check of the real function (stand-in where contract-based deductive verification does not reach), labelled bounded",
+        design="3/C17",
+    ),
 }
 
 NOT_APPLICABLE = {
     "C19": "no pre/postcondition on a function of this repository expresses it: training completion, artifacts and crash-point file contents live in Lightning/wandb/OmegaConf and the file system (DESIGN.md section 5)",
 }
-NOT_BUILT = ["C02", "C03", "C08", "C09", "C10", "C12", "C13", "C14", "C16", "C17", "C18", "C20"]
+NOT_BUILT = ["C02", "C03", "C08", "C09", "C10", "C12", "C13", "C14", "C16", "C18", "C20"]
 
 
 def main():
